@@ -176,7 +176,10 @@ def fits_static(s, app):
 
 
 contract(M + ':Server.check_app_lifetime', types={'app': 'Application', 'return': 'Bool'},
-         ensures=['implies(app.lease == 0, result)'], pure=True, props=['C03'])
+         ensures=['implies(app.lease == 0, result)', 'clock_now() >= old(clock_now())',
+                  # the lease must end before the server's reboot time, judged at the clock value read here
+                  'implies(app.lease != 0, result == (clock_now() + app.lease < self.valid_until))'],
+         modifies=['clock'], props=['C03'])
 
 contract(M + ':Server.put', types={'app': 'Application', 'return': 'Bool'},
          requires=['inv_server(self)', 'inv_server_aff(self)', 'app.name not in self.apps'],
@@ -194,8 +197,11 @@ contract(M + ':Server.put', types={'app': 'Application', 'return': 'Bool'},
                   # completeness (lease-free instances): refusal means a static constraint failed
                   'implies(not result and app.lease == 0, not old(fits_static(self, app)))',
                   'implies(result and old(app.placement_expiry) is not None, '
-                  '        app.placement_expiry == old(app.placement_expiry))'],
-         modifies=['self.free_capacity', 'self.apps', 'app.server', 'app.placement_expiry',
+                  '        app.placement_expiry == old(app.placement_expiry))',
+                  'clock_now() >= old(clock_now())',
+                  # C03 lease clause, against the clock at the start of the call (the check reads it later)
+                  ('C03', 'implies(result and app.lease != 0, old(clock_now()) + app.lease < self.valid_until)')],
+         modifies=['clock', 'self.free_capacity', 'self.apps', 'app.server', 'app.placement_expiry',
                    ('Node.affinity_counters', 'lambda r: r == self or is_bucket(r)'),
                    ('Node.free_capacity', 'lambda r: is_bucket(r)')],
          props=['C01', 'C03', 'C04'])
@@ -229,16 +235,17 @@ contract(M + ':Server.restore', types={'app': 'Application', 'placement_expiry':
                   '   vec_eq(self.free_capacity, old(self.free_capacity)) and app.server == old(app.server) and '
                   '   self.affinity_counters == old(self.affinity_counters))',
                   'app.placement_expiry == (placement_expiry if placement_expiry is not None '
-                  '                         else old(app.placement_expiry))'],
-         modifies=['self.free_capacity', 'self.apps', 'app.server', 'app.placement_expiry', 'app.lease',
+                  '                         else old(app.placement_expiry))',
+                  'clock_now() >= old(clock_now())'],
+         modifies=['clock', 'self.free_capacity', 'self.apps', 'app.server', 'app.placement_expiry', 'app.lease',
                    ('Node.affinity_counters', 'lambda r: r == self or is_bucket(r)'),
                    ('Node.free_capacity', 'lambda r: is_bucket(r)')],
          props=['C01', 'C03', 'C04', 'C07'])
 
 contract(M + ':Server.renew', types={'app': 'Application', 'return': 'Bool'},
          ensures=['implies(not result, app.placement_expiry == old(app.placement_expiry))',
-                  'implies(app.lease == 0, result)'],
-         modifies=['app.placement_expiry'], props=['C01', 'C03'])
+                  'implies(app.lease == 0, result)', 'clock_now() >= old(clock_now())'],
+         modifies=['clock', 'app.placement_expiry'], props=['C01', 'C03'])
 
 contract(M + ':Server.remove_all', types={},
          requires=['inv_server(self)', 'inv_server_aff(self)'],
